@@ -71,6 +71,9 @@ type ProcSpec struct {
 	Replicas int      `json:"replicas"`
 	Env      []string `json:"env"`
 	WdRel    string   `json:"wd_rel"` // "" = no working_dir
+	// environment entries given in a second project file (-f pc.yaml -f pc.override.yaml): the loader merges the two
+	// lists (by key, sorted); the per-process layer of the launch is then the merged list as loaded
+	Over []string `json:"over_env,omitempty"`
 }
 
 type Case struct {
@@ -887,6 +890,21 @@ func projectYAML(c *Case, dir string) string {
 	return sb.String()
 }
 
+func overrideYAML(c *Case) string {
+	var sb strings.Builder
+	sb.WriteString("processes:\n")
+	for _, p := range c.Procs {
+		if len(p.Over) == 0 {
+			continue
+		}
+		sb.WriteString("  " + p.Name + ":\n    environment:\n")
+		for _, e := range p.Over {
+			sb.WriteString("      - " + yamlQ(e) + "\n")
+		}
+	}
+	return sb.String()
+}
+
 func genProject(r *rand.Rand, id int, real bool) *Case {
 	c := &Case{Kind: "project", Gen: "project-fake", ID: id, Real: real}
 	if real {
@@ -956,6 +974,15 @@ func genProject(r *rand.Rand, id int, real bool) *Case {
 		if r.Intn(3) > 0 {
 			ps.WdRel = fmt.Sprintf("w%d", p)
 		}
+		if r.Intn(3) == 0 {
+			// a second file contributes further entries: 2..9 entries after the merge
+			for i, n := 0, 2+r.Intn(6); i < n; i++ {
+				ps.Over = append(ps.Over, fmt.Sprintf("M%d=over%d", i, i))
+			}
+			if r.Intn(2) == 0 && len(ps.Env) > 0 && strings.Contains(ps.Env[0], "=") {
+				ps.Over = append(ps.Over, ps.Env[0][:strings.Index(ps.Env[0], "=")]+"=overridden")
+			}
+		}
 		c.Procs = append(c.Procs, ps)
 	}
 	return c
@@ -998,11 +1025,29 @@ func runProjectOnce(spec *Case) ([]*Case, bool) {
 		c.Inh = os.Environ()
 		return []*Case{&c}, true
 	}
-	opts := &loader.LoaderOptions{FileNames: []string{file}, IsInternalLoader: true}
+	files := []string{file}
+	merged := false
+	for _, p := range spec.Procs {
+		merged = merged || len(p.Over) > 0
+	}
+	if merged {
+		over := filepath.Join(dir, "pc.override.yaml")
+		os.WriteFile(over, []byte(overrideYAML(spec)), 0o644)
+		files = append(files, over)
+	}
+	opts := &loader.LoaderOptions{FileNames: files, IsInternalLoader: true}
 	opts.DisableDotenv(true)
 	prj, err := loader.Load(opts)
 	if err != nil {
 		return fail("loader.Load: " + err.Error())
+	}
+	// per-process layer of a merged process: the list the loader produced (copied before anything runs)
+	loadedGlob := append([]string{}, prj.Environment...)
+	loadedEnv := map[string][]string{}
+	for _, pc := range prj.Processes {
+		if _, ok := loadedEnv[pc.Name]; !ok {
+			loadedEnv[pc.Name] = append([]string{}, pc.Environment...)
+		}
 	}
 	inh := os.Environ()
 	fac := fakecmd.NewFactory()
@@ -1042,6 +1087,12 @@ func runProjectOnce(spec *Case) ([]*Case, bool) {
 		for num := 0; num < p.Replicas; num++ {
 			c := *spec
 			c.Name, c.Num, c.Proc, c.Inh = p.Name, num, p.Env, inh
+			if len(p.Over) > 0 {
+				c.Proc = loadedEnv[p.Name]
+			}
+			if merged {
+				c.Glob = loadedGlob // the merge sorts the project-level list as well
+			}
 			c.Wd = ""
 			if p.WdRel != "" {
 				c.Wd = filepath.Join(dir, p.WdRel)
@@ -1153,6 +1204,15 @@ func main() {
 		for i := 0; i < *nsweep; i++ {
 			id++
 			inputs = append(inputs, genSweepRandom(r, id))
+		}
+		for _, n := range []int{3, 4, 10} { // merged per-process lists of 5, 6 and 12 entries, 3 replicas each
+			id++
+			ps := ProcSpec{Name: "web", Replicas: 3, Env: []string{"A=p0", "B=p1"}}
+			for i := 0; i < n; i++ {
+				ps.Over = append(ps.Over, fmt.Sprintf("M%d=over%d", i, i))
+			}
+			inputs = append(inputs, &Case{Kind: "project", Gen: "project-merged-files", ID: id, Glob: []string{"G=g"},
+				Procs: []ProcSpec{ps, {Name: "one", Replicas: 1, Env: []string{"C=c"}, Over: []string{"D=d", "C=c2"}}}})
 		}
 		for i := 0; i < *nproj+*nreal; i++ {
 			id++
